@@ -147,6 +147,12 @@ pub fn forests(thorough: bool) -> (Vec<Vec<V>>, Value) {
         values.push(V::Obj(vec![(n.clone(), V::Str("a".into())), ("q".into(), V::Null)]));
         values.push(V::Arr(vec![V::Obj(vec![(n.clone(), V::Null)])]));
     }
+    // names that differ only in case, in a trailing blank / NUL, or in Unicode normalisation form: distinct names
+    // (byte-for-byte), so both properties must survive
+    for (n1, n2) in [("Width", "width"), ("\u{c9}t\u{e9}", "\u{e9}t\u{e9}"), ("a", "a "), ("a", "a\u{0}"), ("\u{e9}", "e\u{301}"), ("k", "K"), ("1", "01"), ("x", "\u{feff}x")] {
+        values.push(V::Obj(vec![(n1.into(), num(1.0)), (n2.into(), num(2.0))]));
+        values.push(V::Arr(vec![V::Obj(vec![(n2.into(), V::Str(n1.into())), (n1.into(), V::Str(n2.into())), ("z".into(), V::Null)])]));
+    }
     // wide containers: element / property counts around powers of two and byte boundaries
     for n in [4usize, 16, 255, 256, 257, 1023, 1024, 1025, 4096, 65_535, 65_536, 65_537] {
         values.push(V::Arr(vec![V::Null; n]));
